@@ -9,7 +9,7 @@ off did_you_mean is the constant None.  Not decided: that the chosen name is the
 maximum over a run-time list (only 'keeps a strict running maximum')."""
 import re
 
-from vlib import mir, tpl, scan
+from vlib import resalg, mir, tpl, scan
 from . import common
 
 META = dict(
@@ -23,8 +23,31 @@ def run(ctx):
     core = ctx.core("on")
     f = ctx.fn(K + "did_you_mean")
     if f:
+        simsd = ctx.find_calls_deep(f, r"^strsim::jaro_winkler$")
+        ctx.ob("C17.F.similarity-fn", f.key, "strsim::jaro_winkler(field, candidate)", len(simsd) == 1 and ctx.expr(simsd[0][2], simsd[0][1]["args"][0]) in ("a1", "field"), "%d calls" % len(simsd))
+        folds = [(b_, t_) for b_, t_ in ctx.find_calls(f, r"Iterator(>)?::fold$")]
+        if folds and simsd and simsd[0][2] is not f:
+            # the search written as a fold: the step closure returns the new best or the old one
+            step = simsd[0][2]
+            rows = resalg.cases(ctx, step)
+            J = r"strsim::jaro_winkler\(.*\)"
+            upd = [(c, v) for c, v in rows if v.startswith("core::option::Option::Some{tuple{strsim::jaro_winkler(")]
+            keep = [(c, v) for c, v in rows if not v.startswith("core::option::Option::Some{tuple{strsim::jaro_winkler(")]
+            ctx.ob("C17.G.candidate-update-shape", f.key, "candidate = Some((confidence, pv))", len(upd) >= 1 and all(v == "a2" for c, v in keep) and ctx.expr(f, folds[0][1]["args"][1]) == "core::option::Option::None{}",
+                   "%d updating cases, other cases return %s, fold starts from %s" % (len(upd), sorted({v[:40] for c, v in keep}), ctx.expr(f, folds[0][1]["args"][1])))
+            ok = bool(upd) and all(any(re.match(r"^Gt\(%s, [0-9.]+f64\)=True$" % J, a) for a in c) for c, v in upd)
+            ctx.ob("C17.G.threshold-strict", f.key, "update under confidence > <const>", ok, "update cases %s" % [[a[:60] for a in c] for c, v in upd])
+            ops = [st["r"]["op"] for b2 in [step] + ctx._closures_deep(step) for _, _, st in b2.stmts() if st["k"] == "assign" and st["r"]["k"] == "binop"]
+            ctx.ob("C17.G.comparisons-strict", f.key, "comparison operators", sorted(set(ops)) == ["Gt", "Lt"], "binops %s" % ops)
+            ok2 = bool(upd) and all("is_some(a2)=False" in c or any(re.match(r"^Lt\(\(a2 as Some\)\.0\.0, %s\)=True$" % J, a) for a in c) for c, v in upd)
+            ctx.ob("C17.G.strict-improvement", f.key, "update under (no candidate ∨ best < confidence)", ok2, "a better earlier suggestion must never be replaced by an equal or worse one")
+            consts = [ctx.expr(b2, st["r"]["b"]) for b2 in [step] + ctx._closures_deep(step) for _, _, st in b2.stmts() if st["k"] == "assign" and st["r"]["k"] == "binop" and st["r"]["op"] == "Gt"]
+            ctx.ob("C17.G.threshold-constant", f.key, "threshold", len(consts) == 1 and re.match(r"^[0-9.]+f64$", consts[0]) is not None, "%s" % consts)
+            rs = ctx.ret_values(f)
+            ctx.ob("C17.G.result-is-candidate", f.key, "return", len(rs) == 1 and rs[0].startswith("core::option::Option::<T>::map(core::iter::traits::iterator::Iterator::fold("), "%s" % [r[:120] for r in rs])
+            f = None
+    if f:
         sims = ctx.find_calls(f, r"^strsim::jaro_winkler$")
-        ctx.ob("C17.F.similarity-fn", f.key, "strsim::jaro_winkler(field, candidate)", len(sims) == 1 and ctx.expr(f, sims[0][1]["args"][0]) == "a1", "%d calls" % len(sims))
         # the assignment of the running candidate
         cand_assigns = []
         cand_local = None
@@ -64,12 +87,12 @@ def run(ctx):
         asg = ctx.find_field_assigns(f, "did_you_mean", 1)
         # both reasons to store are present, however the branches are laid out: nothing stored yet, or a closer match
         alld = [d for blk, i, st in asg for d in ctx.pc_strs(f, blk)]
-        NEW = r"is_some\(.*did_you_mean\(self\.name, a2\)\)=True"
+        NEW = r"is_some\(.*(?:did_you_mean\(self\.name, a2\)|Iterator::fold\(.*into_iter\(a2\).*did_you_mean::\{closure#\d+\}\[self\.name\]\))\)=True"
         cover = any(ctx._sat(d, NEW) and ctx._sat(d, r"is_some\(self\.did_you_mean\)=False") for d in alld) and any(ctx._sat(d, NEW) and ctx._sat(d, r"Gt\(.*\.0, .*\.0\)=True") for d in alld)
         ctx.ob("C17.G.add-alts-shape", f.key, "stores when empty and when closer", bool(asg) and cover, "%d assignments under %s" % (len(asg), [sorted(a[:80] for a in d) for d in alld]))
         for blk, i, st in asg:
-            ctx.requires("C17.G.add-alts-only-improves", f, blk, "self.did_you_mean = Some(bna)", [r"is_some\(.*did_you_mean\(self\.name, a2\)\)=True", r"Gt\(.*\.0, .*\.0\)=True"],
-                         alt=[[r"is_some\(.*did_you_mean\(self\.name, a2\)\)=True", r"is_some\(self\.did_you_mean\)=False"]])
+            ctx.requires("C17.G.add-alts-only-improves", f, blk, "self.did_you_mean = Some(bna)", [r"is_some\(.*(?:did_you_mean\(self\.name, a2\)|Iterator::fold\(.*into_iter\(a2\).*did_you_mean::\{closure#\d+\}\[self\.name\]\))\)=True", r"Gt\(.*\.0, .*\.0\)=True"],
+                         alt=[[r"is_some\(.*(?:did_you_mean\(self\.name, a2\)|Iterator::fold\(.*into_iter\(a2\).*did_you_mean::\{closure#\d+\}\[self\.name\]\))\)=True", r"is_some\(self\.did_you_mean\)=False"]])
     # sibling alternates only at the error's origin
     f = ctx.fn("darling_core::error::Error::add_sibling_alts_for_unknown_field")
     if f:
